@@ -33,6 +33,15 @@ CHECKS = {
              'schedules, bugs=saio, by number, by time and in live mode 54 years after the epoch, and TLC evaluates well-formedness, pointer, '
              'sample-size, senc-count and payload-identity clauses on the independent projection of every response.',
         note='Trusted: TLC, the independent ISO-BMFF walker and stored-file scan, the PlayReady object reader. Stored segment kinds are those of the fixture media; other layouts (no tfdt, explicit base offset, 16-byte IV) are covered at design level only.', design='4 C03'),
+    'C05': dict(
+        technique='TLA+ spec MpdRules.tla (structural MPD rules over a projected tree): rules checked by TLC against a catalogue of broken '
+                  'trees (vacuity) and on the projection of every real manifest / patch; hostile-string skeleton comparison',
+        text='Every template x supported mode x single/multi-period x option vector is requested, parsed strictly with lxml and projected to a '
+             'tree (attribute kinds, lexical validity and template identifiers decided by the projection); TLC evaluates required attributes, '
+             'lexical/non-negative values, id uniqueness, non-empty AdaptationSets and template identifiers, and for hostile strings injected '
+             'through stored titles, licence URLs and query values it compares the element skeleton with that of the benign document.',
+        note='Trusted: TLC, lxml, the XSD lexical regular expressions of the projection. Each rule is shown to reject a deliberately broken tree.',
+        design='4 C05'),
     'C06': dict(
         technique='TLA+ spec LiveWindow.tla static mode: TLC over all layouts (C06 invariants) + pure-layer replay + every static '
                   'manifest walked end to end over HTTP (numbers, timeline entries, SegmentList ranges, one past the end), TLC trace validation',
